@@ -488,7 +488,11 @@ def to_fpm_and_back(wavefunction, dx, efl, wavelength, fpm, fpm_dx, shift=(0, 0)
 
     field_after_fpm = field_at_fpm * fpm
 
-    field_at_next_pupil = unfocus_fixed_sampling(field_after_fpm, fpm_dx, efl, wavelength, dx, wavefunction.shape, shift=shift, method=method)  # NOQA
+    # shift is in focal plane units; unfocus_fixed_sampling takes its shift in
+    # units of its output (pupil) spacing.  The return trip must be displaced by
+    # the same number of focal plane samples as the outbound trip
+    shift_back = (shift[0] / fpm_dx * dx, shift[1] / fpm_dx * dx)
+    field_at_next_pupil = unfocus_fixed_sampling(field_after_fpm, fpm_dx, efl, wavelength, dx, wavefunction.shape, shift=shift_back, method=method)  # NOQA
 
     if return_more:
         return field_at_next_pupil, field_at_fpm, field_after_fpm
